@@ -2,6 +2,8 @@
 from __future__ import annotations
 
 import io
+import os
+import tempfile
 import warnings
 from typing import Any, List, Optional, Tuple
 
@@ -14,7 +16,7 @@ RULE = ('seeded random trees (depth<=5, width<=6, empty blocks, duplicate and ca
         'characters from the escape set, structure characters, controls, BOM, astral code points; names never contain '
         'CR/LF) serialised under every combination of indent in {TAB, 2 spaces, empty, space+TAB}, indent_braces, '
         'start_indent, to a string and to a file object, and through the deprecated export() line generator; parsed '
-        'from a str, from a list of random chunks and from a file object. Non-trivial = the tree contains a block and '
+        'from a str, from a list of random chunks, from io.StringIO and from real file objects (TemporaryFile, open(path), open(fd)). Non-trivial = the tree contains a block and '
         'at least one escape-set character; distinct = distinct tree content.')
 ASSUMPTIONS = ['Python tokenizer', 'names contain no CR/LF (excluded by the property)',
                'trees are acyclic and leaves hold str values']
@@ -180,17 +182,38 @@ def check_tree(run, rng, tree, engine: str, case_id: Any) -> None:
                           witness={'default': texts[0][1], 'other': text}, case=case, engine=engine,
                           key='option-dependent-output' if label != 'export()' else 'export-differs')
     # --- parse each text under one delivery each (rotating), plus the default text under all three
-    deliveries = ['str', 'chunks', 'file']
+    deliveries = ['str', 'chunks', 'file', 'realfile']
     for ti, (label, text) in enumerate(texts):
         for di, how in enumerate(deliveries):
-            if ti != 0 and di != (ti + case_id if isinstance(case_id, int) else ti) % 3:
+            if ti != 0 and di != (ti + case_id if isinstance(case_id, int) else ti) % 4:
                 continue
+            closer = None
             if how == 'str':
                 src: Any = text
             elif how == 'chunks':
                 src = random_chunks(rng, text, 10)
-            else:
+            elif how == 'file':
                 src = io.StringIO(text, newline='')
+            else:
+                # file objects as the operating system hands them out: an anonymous temporary file and a file opened
+                # from a descriptor have an int as .name, a file opened by path has the path
+                kind = (case_id if isinstance(case_id, int) else 0) % 3
+                if kind == 0:
+                    src = tempfile.TemporaryFile('w+', encoding='utf8', errors='surrogatepass', newline='')
+                    src.write(text)
+                    src.seek(0)
+                else:
+                    fd, path = tempfile.mkstemp(prefix='rv-c01-', suffix='.txt')
+                    with os.fdopen(fd, 'w', encoding='utf8', errors='surrogatepass', newline='') as wf:
+                        wf.write(text)
+                    if kind == 1:
+                        src = open(path, encoding='utf8', errors='surrogatepass', newline='')
+                    else:
+                        src = open(os.open(path, os.O_RDONLY), encoding='utf8', errors='surrogatepass', newline='')
+                    os.unlink(path)
+                closer = src
+                how = f'realfile/{("TemporaryFile", "open(path)", "open(fd)")[kind]}'
+                run.count('real_file_deliveries')
             diff = err = None
             try:
                 parsed = Keyvalues.parse(src)
@@ -205,6 +228,8 @@ def check_tree(run, rng, tree, engine: str, case_id: Any) -> None:
                     diff = first_diff(want, got)
                 else:
                     diff = first_diff((None, [want]), got)
+            if closer is not None:
+                closer.close()
             if err is not None or diff is not None:
                 run.violation(f'{label} -> parse({how}) did not reproduce the tree: {err or diff}',
                               witness={'text': text, 'diff': diff, 'error': err}, case=case, engine=engine,
@@ -244,7 +269,7 @@ def main(run, shard=(0, 1)) -> None:
             check_tree(run, sub_rng(run.seed, 'fixed', j), tree, 'fixed', f'fixed{j}')
     probe.report(run)
     probe.check_reached(run)
-    run.require('serialise_calls', 'parse_calls', 'trees_with_escape_char_in_block_name')
+    run.require('serialise_calls', 'parse_calls', 'real_file_deliveries', 'trees_with_escape_char_in_block_name')
 
 
 def replay(run, data) -> None:
